@@ -29,3 +29,15 @@ Theorem Pem_root_bounds : forall g toks rx fuel s e m,
   s <= mr_start m /\ mr_start m <= mr_end m /\ mr_end m <= e.
 Proof. exact parse_root_bounds. Qed.
 Print Assumptions Pem_root_bounds.
+
+(** Keyword-case clause of C11 on the interpreter: re-casing (upper / lower / swap) the text of any
+    chosen tokens, kinds unchanged, leaves the match result of every grammar graph unchanged.
+    [abs h first_word] is the token abstraction the translator computes, for any string interning [h]. *)
+From Sq Require Import Layout.Model Pem.CaseInv.
+Theorem Pem_recase_invariant : forall (h : str -> N) (first_word : str -> str) g rx fuel s e
+    (l : list rtok) (pick : rtok -> bool) (f : str -> str),
+  (f = upper \/ f = lower \/ f = swapcase) ->
+  parse_root g (toks_of_list (map (abs h first_word) (map (fun t => if pick t then recase_tok f t else t) l))) rx fuel s e
+  = parse_root g (toks_of_list (map (abs h first_word) l)) rx fuel s e.
+Proof. exact parse_recase_invariant. Qed.
+Print Assumptions Pem_recase_invariant.
